@@ -151,7 +151,7 @@ def main():
         }],
         "checks": checks,
         "not_applicable": na,
-        "notes": "All checks rebuild the harness against /repo's working tree (module replace) on every invocation. Exit 0 = held on everything explored; exit 1 = VIOLATION line. KNOWN_FINDINGS.txt lists repaired defects (fixed:) and, if any, recorded ones (known:).",
+        "notes": "All checks rebuild the harness against /repo's working tree (module replace) on every invocation. Exit 0 = held on everything explored; exit 1 = VIOLATION line. KNOWN_FINDINGS.txt lists eight repaired defects (fixed:) and one recorded one (known: C14 - the count of a sketch on the paginated store changes in its last bits when Encode compacts the buffer; bins must have non-dyadic weights; both tiers print KNOWN-FINDING lines for it and exit 0).",
     }
     json.dump(man, open(os.path.join(HERE, "MANIFEST.json"), "w"), indent=1)
     print("wrote MANIFEST.json with", len(checks), "checks;", len(na), "not applicable")
